@@ -19,11 +19,13 @@ CHECKS = [
         "sets_of_k_pattern/_rdm (re-read from /repo on every run) and z3 discharges, for all numbers of groups, all k, both "
         "k=None/int and every shuffle permutation (havoc): test/train subsets of the groups, train-test disjointness, train = complement, "
         "folds pairwise disjoint, every group in some test fold, fold sizes differ by <= 1, returned objects are exactly the "
-        "advertised selections, ceil-set shape, call-site conformance of the of_k wrappers. The two-factor generators (sets_k_fold, "
-        "sets_random) and the non-interference clause of crossval are decided by bounded run-time oracles only (labelled bounded in "
-        "the evidence, never counted as proved).",
+        "advertised selections, ceil-set shape, call-site conformance of the of_k wrappers; the crossval contract shared with C04 proves that "
+        "the fitter of a fold sees the training object only. The two-factor generators (sets_k_fold, sets_random) and the perturbation "
+        "form of the non-interference clause are decided by bounded run-time oracles only (labelled bounded in the evidence, never "
+        "counted as proved; list- and ndarray-typed descriptors, source object checked intact).",
         "Assumed: library contracts of np.unique/arange/floor/concatenate/setdiff1d/shuffle (listed in evidence trusted_base); "
-        "RDMs.subset/subset_pattern/subsample/subsample_pattern are uninterpreted selections (their own contracts belong to C09/C10); "
+        "RDMs.subset/subsample are uninterpreted selections at these call sites (their bodies are under contract in C10 / C09), "
+        "subset_pattern/subsample_pattern are uninterpreted (bounded tiers of C09/C10); "
         "mathematical integers; exact small-integer floats. Bounded part: n_rdm<=6, n_cond<=8, stated in evidence.",
         "contract-based deductive verification: ast->z3 VC generation on the real source (map-loop summaries, havoc RNG), external z3 portfolio; bounded run-time oracles as stand-in for the rest",
         "DESIGN.md C05"),
@@ -74,28 +76,28 @@ CHECKS = [
         'contract-based deductive verification: sidecar contracts on the real functions, ast->z3 VC generation on the real source (re-read every run), external z3 portfolio + z3 lemma layer + bounded run-time oracles',
         'DESIGN.md C06'),
     chk('C07', 'other',
-        'Engine A proves the leave-one-group-out dataflow of boot_noise_ceiling (fold i compares group i with pool_rdm of the OTHER groups / of all) and of cv_noise_ceiling (pooled ceil_set[f] resp. all RDMs at the test conditions vs test_f), both plain means over folds, for all inputs. Lean 4 + Mathlib lemma pooled_optimal: for unit vectors the sum direction maximises the mean cosine (hence no candidate beats the pooled RDM under the pooling contract), cos_scale_invariant. Pooling formula, rho-a optimality by exhaustive enumeration of weak orders, lower <= upper, invariances, missing entries: bounded oracle tier.',
+        'Engine A proves the leave-one-group-out dataflow of boot_noise_ceiling (fold i compares group i with pool_rdm of the OTHER groups / of all) and of cv_noise_ceiling (pooled ceil_set[f] resp. all RDMs at the test conditions vs test_f), both plain means over folds, for all inputs; _nan_rank_data (rank pooling for spearman / rho-a: ranks among the non-missing entries, missing stay missing). Lean 4 + Mathlib lemma pooled_optimal: for unit vectors the sum direction maximises the mean cosine (hence no candidate beats the pooled RDM under the pooling contract), cos_scale_invariant. Pooling formula, rho-a optimality by exhaustive enumeration of weak orders, lower <= upper, invariances, missing entries: bounded oracle tier.',
         'pool_rdm / compare uninterpreted in A; the Lean lemmas are stated over the pooling contract (mean of normalised vectors), which is checked only by the bounded tier; sets_leave_one_out_rdm contract from C05',
         'contract-based deductive verification: sidecar contracts on the real functions, ast->z3 VC generation on the real source (re-read every run), external z3 portfolio + Lean/Mathlib lemma layer + bounded run-time oracles',
         'DESIGN.md C07'),
     chk('C08', 'exploration',
-        'Optimality of the fitters depends on BFGS / Brent / active-set convergence and is decided by bounded competitor search (random directions, local perturbations, grids, independently computed (NN)LS optimum, KKT certificate), labelled bounded. Deductive part: engine A proves by EUF non-interference that fit_regress / fit_regress_nn use the model ONLY through rdm_obj.subsample_pattern(pattern_descriptor, pattern_idx) (or the full rdm_obj) and the data only through pool_rdm(data, method).',
-        'optimiser convergence cannot be proved in this family; 10 open findings listed in known_findings.json',
+        'Optimality of the fitters depends on BFGS / Brent / active-set convergence and is decided by bounded competitor search (random directions, local perturbations, grids, independently computed (NN)LS optimum, KKT certificate), labelled bounded. Deductive part: engine A proves by EUF non-interference that fit_regress / fit_regress_nn use the model ONLY through rdm_obj.subsample_pattern(pattern_descriptor, pattern_idx) (or the full rdm_obj) and the data only through pool_rdm(data, method, sigma_k); and for fit_select that the returned index is np.argmax over ALL candidates i of mean(compare(candidate i [restricted to the selected conditions], the training RDMs as given, method, the sigma_k of the caller)).',
+        'optimiser convergence cannot be proved in this family; open findings listed in known_findings.json (F1/F2/F5 repaired in /repo)',
         'bounded run-time oracles with competitor search (stand-in) + EUF non-interference obligations from ast->z3 on the real fitters',
         'DESIGN.md C08'),
     chk('C09', 'other',
-        'Engine A proves for EVERY outcome of np.random.randint (havoc) that each sampler draws as many group values as there are distinct groups over the full range [0,#groups), every returned index is a group value, and the sample is exactly subsample / subsample_pattern of the source with the RETURNED indices. Multiplicity, NaN placement, descriptor gathering and order agreement of RDMs.subsample / subsample_pattern are decided by the bounded tier that ENUMERATES all draw vectors for n_rdm<=4, n_cond<=5.',
-        "uniformity of numpy's generator is an assumed contract (only a smoke test); subsample / subsample_pattern uninterpreted in A",
+        'Engine A proves for EVERY outcome of np.random.randint (havoc) that each sampler draws as many group values as there are distinct groups over the full range [0,#groups), every returned index is a group value, and the sample is exactly subsample / subsample_pattern of the source with the RETURNED indices. The body of RDMs.subsample is under contract: its nested loops are summarised as a concatenation of filters and z3 discharges, for ALL descriptor columns (duplicates allowed) and ALL value lists / scalars: every sampled RDM carries a drawn value, every RDM of a drawn group is present, one block per draw in draw order with each member once in source order (structural; gives the exact multiplicity), dissimilarity rows and EVERY rdm descriptor gathered by the same index sequence, other fields those of the source. NaN placement and order agreement of subsample_pattern are decided by the bounded tier that ENUMERATES all draw vectors for n_rdm<=4, n_cond<=5.',
+        "uniformity of numpy's generator is an assumed contract (only a smoke test); subsample_pattern uninterpreted in A; generic-key argument for descriptor dictionaries (two generic columns stand for any key set: the code treats keys uniformly); fancy indexing arr[idx, :] is an uninterpreted gather",
         'contract-based deductive verification: sidecar contracts on the real functions, ast->z3 VC generation on the real source (re-read every run), external z3 portfolio with havoc for RNG + exhaustive bounded enumeration of draws',
         'DESIGN.md C09'),
     chk('C10', 'other',
-        'Lemma layer (z3): the condensed index is a bijection onto [0,n(n-1)/2) increasing in lexicographic order, row offsets, order-isomorphism of kept pairs under a monotone re-indexing. Engine A: the number of conditions is recovered from the vector length for EVERY size (both helpers; exact sqrt/ceil below 2^52 assumed). Per-operation behaviour against an abstract view with ghost ids (exhaustive short sequences, seeded long histories, concat / from_partials / permute_rdms domains): bounded oracle tier.',
-        'structural RDMs operations themselves are not symbolically executed; 9 open defect classes in known_findings.json',
-        'z3 lemma layer + ast->z3 obligations on the size helpers + model-based bounded histories',
+        'Lemma layer (z3): the condensed index is a bijection onto [0,n(n-1)/2) increasing in lexicographic order, row offsets, order-isomorphism of kept pairs under a monotone re-indexing. Engine A: the number of conditions is recovered from the vector length for EVERY size (both helpers; exact sqrt/ceil below 2^52 assumed); bool_index / num_index select exactly the entries with a requested value (scalar or list), each once, in original order; extract_dict / subset_descriptor gather every column by the given index sequence and leave the source dictionary alone; RDMs.subset keeps exactly the RDMs with a requested value in source order and gathers dissimilarity rows and every rdm descriptor by that one selection -- for all descriptor columns, values and index sequences. Per-operation behaviour against an abstract view with ghost ids (exhaustive short sequences, seeded long histories, concat / from_partials / permute_rdms domains): bounded oracle tier.',
+        'subset_pattern / subsample_pattern / reorder / concat / from_partials are not symbolically executed (bounded tier); library models np.where / np.any(axis=0) / array==scalar; 9 open defect classes in known_findings.json',
+        'contract-based deductive verification: ast->z3 VC generation on the real selection helpers and RDMs.subset (filter summaries of conditional loops), z3 lemma layer, + model-based bounded histories',
         'DESIGN.md C10'),
     chk('C11', 'other',
         'Engine A proves for all inputs that Dataset/TemporalDataset.sort_by gather the measurement rows and every obs descriptor by ONE stable argsort of the key and leave the other descriptors alone, and that subset_obs / subset_channel select measurements and the matching descriptors by ONE descriptor selection and pass the rest through. Splits, merges, binning, conversions, DataFrame round trip, histories against an abstract view with ghost ids: bounded oracle tier.',
-        'num_index / subset_descriptor / argsort(kind=stable) uninterpreted; 3 open findings',
+        'num_index / subset_descriptor uninterpreted at these call sites (their bodies are under contract in C10); argsort(kind=stable) assumed; 3 open findings',
         'contract-based deductive verification: sidecar contracts on the real functions, ast->z3 VC generation on the real source (re-read every run), external z3 portfolio + model-based bounded histories',
         'DESIGN.md C11'),
     chk('C12', 'other',
@@ -119,7 +121,7 @@ CHECKS = [
         'bounded run-time round-trip oracles (stand-in) + ast->z3 totality obligations on the writer',
         'DESIGN.md C16'),
     chk('C17', 'other',
-        'Lemma layer (z3 NRA): sqrt is strictly increasing and tie-preserving on non-negatives, positive affine maps preserve order and ties, the clipped-linear map is monotone into [0,1], max(x,0) is monotone -- with the C03 formula contracts these give the invariance clauses; Lean: cosine invariant under positive scaling. Engine B: sqrt_transform = sqrt(max(x,0)) and positive_transform = max(x,0) for all reals under all 27 sign patterns. Ranks, quantile thresholds, geodesic, descriptors, invariance of the real compare(): bounded oracle tier.',
+        'Lemma layer (z3 NRA): sqrt is strictly increasing and tie-preserving on non-negatives, positive affine maps preserve order and ties, the clipped-linear map is monotone into [0,1], max(x,0) is monotone -- with the C03 formula contracts these give the invariance clauses; Lean: cosine invariant under positive scaling. Engine B: sqrt_transform = sqrt(max(x,0)) and positive_transform = max(x,0) for all reals under all 27 sign patterns. Engine A: rank_transform ranks each RDM among its non-missing entries with the REQUESTED tie method (scipy rankdata with nan_policy omit) and keeps all descriptors. Quantile thresholds, geodesic, descriptors, invariance of the real compare(): bounded oracle tier.',
         'scipy rankdata / np.quantile / networkx assumed; 2 open findings (geodesic drops the minimal edge; positive_transform keeps the measure name)',
         'z3/Lean lemma layer + engine B + bounded run-time oracles',
         'DESIGN.md C17'),
